@@ -37,6 +37,8 @@ func main() {
 		histMain(os.Args[2:])
 	case "selftest":
 		selftestMain()
+	case "corpus":
+		corpusMain(os.Args[2:])
 	default:
 		usage()
 	}
